@@ -92,9 +92,16 @@ def check_case(S, rep, relfile, cls, dim):
 def freshness(S, rep, rule):
     """def-use over the interaction's evaluation entry points: derived buffers of a grid (arms, transposed directors, element
     velocities ...) are recomputed from the body before they are read, so markers carry the CURRENT section kinematics"""
-    from .gridcases import stale_reads
+    from .gridcases import stale_reads, constructor_aliases, analysed
     for relfile, cls, dim in CASES:
         derived, res = stale_reads(S.repo, relfile, cls, dim)
+        # two buffers bound to one array: refreshing the derived one (world-frame offsets) overwrites the other (body-frame
+        # offsets), so the markers are no longer material points after the second refresh
+        g = analysed(S.repo, relfile, cls, dim)
+        bad = ["self.%s and self.%s are the same array (%s.__init__ line %d)" % (a, b, owner, line)
+               for a, b, line, owner in constructor_aliases(g) if (a in derived) != (b in derived) or (a in derived and b in derived)]
+        rep.ob(rule, "%s %dD buffers are distinct arrays" % (cls, dim), not bad, "; ".join(bad[:2]) if bad else "no two buffers share an array",
+               key="%s|%s|%d|alias|%s" % (rule, cls, dim, bad[:1]), nontrivial=False)
         for m, (seq, bad) in sorted(res.items()):
             rep.ob(rule, "%s %dD %s: derived buffers recomputed before use" % (cls, dim, m), not bad,
                    "; ".join(bad[:3]) if bad else "call order %s; %d derived buffers, none read before it is rewritten" % ([x for x, _ in seq], len(derived)),
